@@ -191,19 +191,27 @@ func (w *webSocketClient) Close() error {
 	if w.conn == nil {
 		return nil
 	}
-	err := w.conn.WriteMessage(closeMessage, formatCloseMessage(closeNormalClosure, ""))
+	// Whatever fails below, the error channel and the connection are still
+	// closed; the first error is the one reported.
+	var firstErr error
+	// Unsubscribe first: the close frame must be the last frame we write.
+	err := w.UnsubscribeAll()
 	if err != nil {
-		return fmt.Errorf("failed to send closure message: %w", err)
+		firstErr = fmt.Errorf("failed to unsubscribe: %w", err)
 	}
-	err = w.UnsubscribeAll()
-	if err != nil {
-		return fmt.Errorf("failed to unsubscribe: %w", err)
+	err = w.conn.WriteMessage(closeMessage, formatCloseMessage(closeNormalClosure, ""))
+	if err != nil && firstErr == nil {
+		firstErr = fmt.Errorf("failed to send closure message: %w", err)
 	}
 	w.Lock()
 	defer w.Unlock()
 	w.isClosing = true
 	close(w.errChan)
-	return w.conn.Close()
+	err = w.conn.Close()
+	if err != nil && firstErr == nil {
+		firstErr = err
+	}
+	return firstErr
 }
 
 func (w *webSocketClient) Subscribe(req *Request, interfaceChan interface{}, forwardDataFunc ForwardDataFunction) (string, error) {
